@@ -415,6 +415,7 @@ def run(ctx):
     nesting_tests(ctx)
     base_scope_lookups(ctx)
     literal_operator_recorded(ctx)
+    sign_printing(ctx)
     rebuild_rules(ctx, "R06.5")
     changed_flag_rules(ctx, "R06.6")
     ctx.rule("R06.1", "every field a (non-copy) constructor initialises from a parameter is read by the class's structural is_less() and is_equal()")
@@ -674,3 +675,44 @@ def _keyword_round_trip(ctx):
         lits = [y.get("v", "") for y in f.walk() if y.get("k") == "str"]
         deleg = any(c.get("k") == "call" and callee_short(c) == "output_instance" and (field_of(c.get("this")) or "").endswith(inner) for c in f.walk())
         ctx.ob("R06.4", "printer|%s" % cls, any(tok in l for l in lits) and deleg, f.loc(), "%s::output_instance emits `%s` and delegates to %s" % (cls, tok, inner))
+
+
+def sign_printing(ctx):
+    """R06.11: the printed form is read again (by a compiler, by interrogate_module, by people).  `-` directly followed by
+    an operand text that starts with `-` is the decrement operator: `A<-(-1)>` printed as `A< --1 >` names no type, and
+    `-(-x)` printed as `--x` is another expression.  The other unary arms print `(op ` first; the two sign arms must
+    either do the same or look at the operand's text before they join it to the sign.  (F-C06i.)"""
+    db = ctx.db
+    ctx.rule("R06.11", "in CPPExpression::output the UNARY_MINUS / UNARY_PLUS arm does not write the operand straight after the sign: it writes a separator first, or renders the operand into a buffer and tests its first character")
+    from . import C07
+    tv = C07.token_values(db)
+    fn = db.fn("CPPExpression::output")
+    want = {tv.get("UNARY_MINUS"): "UNARY_MINUS", tv.get("UNARY_PLUS"): "UNARY_PLUS"}
+    if None in want:
+        ctx.broken("R06.11: token values of UNARY_MINUS / UNARY_PLUS not found")
+    n = 0
+    outp = [p for p in fn.params if "ostream" in p["t"]]
+    for sw in [y for y in fn.walk() if y.get("k") == "switch" and show(y["c"]).endswith("_operator")]:
+        for labs, stmts in switch_arms(sw):
+            hit = [want[v] for v in labs if v in want]
+            if not hit:
+                continue
+            # only the unary switch: its arms print _op1 and never _op2
+            if any("_op2" in show(x) for st in stmts for x in walk(st) if x.get("k") == "mem"):
+                continue
+            n += 1
+            calls = [c for st in stmts for c in walk(st) if c.get("k") == "call" and callee_short(c) == "output" and "_op1" in show(c.get("this") or {})]
+            direct = [c for c in calls if c.get("a") and (local_ref(c["a"][0]) or {}).get("d") == outp[0]["d"]]
+            lits = [x.get("v") for st in stmts for x in walk(st) if x.get("k") == "str"] + [chr(const_int(x)) for st in stmts for x in walk(st) if x.get("k") == "chr" and const_int(x) is not None]
+            ok = bool(calls)
+            why = "operand rendered into a buffer and inspected"
+            if direct:
+                seps = [l for l in lits if l and (l.endswith(" ") or l.endswith("("))]
+                ok = bool(seps)
+                why = "operand written straight to the stream after %s" % (("the separator %r" % seps[0]) if seps else "the bare sign")
+            else:
+                tests = [y for st in stmts for y in walk(st) if y.get("k") == "if"]
+                ok = ok and bool(tests)
+                why += "" if tests else " - but never tested"
+            ctx.ob("R06.11", "output|%s|sign-kept-apart" % "+".join(hit), ok, fn.loc(stmts[0]), why)
+    ctx.floor("R06.11", "sign arms of the unary printer", n, 1)
